@@ -714,6 +714,19 @@ def run_oracles(rec, viol, b, made, r, prob, refs, lb, ub, starts, algo, extra, 
         near = [v for v in ll_starts if _rel(float(data.initLogLike), v, max(1.0, abs(v))) <= 1e-9]
         if near:
             ll_start = near[0]
+    # A re-estimation of the same object starts from the values the formulas hold, i.e. the estimates of the previous run
+    # (repository commit 6b4a071; with an iteration file it always did).  When that previous run used an algorithm that
+    # ignores bounds, these values may lie outside the declared box: such a start is not an admissible starting point
+    # (see ASSUMPTIONS: feasibility and "final >= initial" cannot both hold), so the monotonicity clauses are not judged.
+    def _outside(pt):
+        return any((lb[i] is not None and pt[i] < lb[i] - 1e-10 * abs(lb[i]) - 1e-12)
+                   or (ub[i] is not None and pt[i] > ub[i] + 1e-10 * abs(ub[i]) + 1e-12) for i in range(nf))
+    start_outside_box = False
+    if len(starts) > 1:
+        matching = [s_ for s_, v in zip(starts, ll_starts) if v == ll_start]
+        start_outside_box = bool(matching) and all(_outside(s_) for s_ in matching)
+        if start_outside_box:
+            rec.count('reestimations_started_outside_the_box_by_an_earlier_unbounded_run(monotonicity not judged)')
     scale = max(1.0, abs(ref_ll))
     bounded = fam != 'unbounded'
     x_box, ll_box, act_box = refs['box']
@@ -743,9 +756,9 @@ def run_oracles(rec, viol, b, made, r, prob, refs, lb, ub, starts, algo, extra, 
             viol('init-loglike-not-the-likelihood-at-start', f'initLogLike {il!r} but the likelihood at the start {start} '
                  f'is {ll_start!r}' + (f' (likelihood at the candidate starts {starts}: {ll_starts})' if len(starts) > 1 else ''),
                  expected=ll_start if len(starts) == 1 else ll_starts, observed=il)
-        if il is not None and ll_rep < float(il) - 1e-9 * scale:
+        if il is not None and ll_rep < float(il) - 1e-9 * scale and not start_outside_box:
             viol('final-below-initial', f'final logLike {ll_rep!r} < initLogLike {il!r}', expected=f'>= {il}', observed=ll_rep)
-    if ll_rep < ll_start - 1e-9 * scale:
+    if ll_rep < ll_start - 1e-9 * scale and not start_outside_box:
         viol('final-below-likelihood-at-start', f'final logLike {ll_rep!r} < likelihood at the start {ll_start!r}',
              expected=f'>= {ll_start}', observed=ll_rep)
     # (4) reported derivatives are those of the likelihood at x*
